@@ -10,6 +10,8 @@ hidden state (stale requestor links, memo fields on values, dictionary order)
 is established by the session / hash-seed correspondence (harness/uh/props/c20.py).
 -/
 import UH.Model.Main
+import UH.Proofs.Session
+import UH.Properties.ByName
 namespace UH.C20
 open UH
 
@@ -34,5 +36,44 @@ on anything but the set of printed pairs when the printed keys are distinct -/
 theorem insertByKey_sorted_head (p q : String × String) (r : List (String × String)) (h : p.1 < q.1) :
     insertByKey p (q :: r) = p :: q :: r := by
   simp [insertByKey, String.lt_asymm h]
+
+/-! ### isolation inside one heap (the fragment of the call-by-name reference semantics)
+
+The theorems above say that the model starts every evaluation from the initial store.  The implementation does not: one
+Python heap carries every object earlier evaluations created.  The following theorems are about that situation — programs
+evaluated one after another in *one growing heap* — for the programs of the fragment of `ByName.BN` (literals, functions,
+argument references, Booleans and selection, integer ㄴ / ㄷ / ㄱ / ㅈ, lists): whatever the heap looks like when a program
+starts — as long as it satisfies the invariant of the adequacy proof, which the initial heap does and every evaluation
+re-establishes — the program evaluates to its by-name value, a function of the program text alone. -/
+
+open ByName BigStep in
+/-- a closed program evaluated in *any* heap satisfying the invariant computes its by-name value and leaves such a heap -/
+theorem evaluation_in_any_heap {G : Ghost} {s : Store} (inv : Inv G s) (e : AST) (n : Int) (w : World)
+    (hbn : BN (.mk [] []) e (.int n)) :
+    ∃ (h : Nat) (G' : Ghost) (s' : Store),
+      Eval (alloc s e ⟨[], []⟩) w (.frame s.cells.size) h (.ok (.arg (.strict (.int n)))) s' w ∧ Inv G' s' :=
+  adequacy_anywhere inv e n w hbn
+
+open ByName in
+/-- **every sequence of programs** (any order, any repetitions), evaluated one after another in one heap, produces program
+by program the values the programs have on their own — from every heap that satisfies the invariant -/
+theorem session_isolated (w : World) {es : List AST} {ns : List Int} (hv : Vals es ns) :
+    ∀ (G : Ghost) (s : Store), Inv G s → ∃ (G' : Ghost) (s' : Store), Session w s es ns s' ∧ Inv G' s' :=
+  ByName.session_isolated w hv
+
+open ByName in
+theorem session_from_start (w : World) {es : List AST} {ns : List Int} (hv : Vals es ns) :
+    ∃ s', Session w initStore es ns s' := ByName.session_from_start w hv
+
+open ByName in
+/-- the outputs are determined by the programs alone -/
+theorem session_outputs_unique {es : List AST} {ns ns' : List Int} (hv : Vals es ns) (hv' : Vals es ns') : ns = ns' :=
+  ByName.session_outputs_unique (w := default) hv hv'
+
+open ByName in
+/-- a closed instance (the hypotheses are satisfiable): the session `3`, `countdown 2`, `3` — a program, a recursive program that
+fills memo cells and requestor chains, and the first program again — yields 3, 0, 3 -/
+example (w : World) : ∃ s', Session w initStore [.lit 3 ⟨0, 0, 0⟩, NatSemP.countdown 2, .lit 3 ⟨0, 0, 0⟩] [3, 0, 3] s' :=
+  session_from_start w (.cons BN.lit (.cons (ByNameP.bn_countdown 2) (.cons BN.lit .nil)))
 
 end UH.C20
